@@ -412,7 +412,14 @@ class Builder:
             if not is_module:
                 recv = self.t(f.value)
         else:
-            return app("call", self.t(f), *[self.t(a) for a in e.args])
+            # call of a computed callable (`table[k](x, **opts)`): every argument counts, keywords and unpacked ones included
+            ck = []
+            for i_, k in enumerate(e.keywords):
+                kv = self.t(k.value)
+                kv = kv if isinstance(kv, Rat) else (app("tuple", *kv) if isinstance(kv, tuple) else app("const", str(kv)))
+                ck.append((k.arg if k.arg is not None else f"**{i_}", kv))
+            ck = tuple(sorted(ck, key=lambda kv_: kv_[0]))
+            return app("call", self.t(f), *[self.t(a) for a in e.args], ("kw",) + ck) if ck else app("call", self.t(f), *[self.t(a) for a in e.args])
 
         args = [self.t(a) for a in e.args]
         kws = {k.arg: self.t(k.value) for k in e.keywords if k.arg is not None}
@@ -728,7 +735,7 @@ class Builder:
                 return args[0]
             if n == "arange" and not is_method:
                 return sym("j")
-        if n in IDENTITY_CASTS and not is_method and args:
+        if n in IDENTITY_CASTS and not is_method and args and self.erase_casts:
             return args[0] if len(args) == 1 else tuple(args)
         if self.track_effects and n in ("zeros", "ones", "empty", "full") and not is_method and e is not None \
                 and isinstance(e.func, ast.Attribute) and dotted(e.func.value) == "torch":
